@@ -366,10 +366,12 @@ class PathSum(object):
                              rel(fi.path))
 
     # -- entry -------------------------------------------------------------
-    def run(self, fi, args=None, self_term=None):
+    def run(self, fi, args=None, self_term=None, heap=None):
         """Path summaries of fi called with symbolic arguments (default: one
-        symbol per parameter)."""
+        symbol per parameter); `heap` pre-sets attribute values."""
         st = St()
+        if heap:
+            st.heap.update(heap)
         a = fi.node.args
         params = [x.arg for x in a.posonlyargs + a.args]
         env = st.env
@@ -1114,6 +1116,34 @@ class PathSum(object):
         for s, its in self.ev_list([g.iter for g in gens], st, fi):
             if s.outcome is not None:
                 out.append((s, BOT))
+                continue
+            if len(gens) == 1 and not gens[0].ifs and its[0][0] in (
+                    'tuple', 'list') and len(its[0][1]) <= self.unroll \
+                    and not isinstance(e, ast.DictComp):
+                # a comprehension over a literal sequence is that many
+                # evaluations of its element, in order
+                live = [(s, [])]
+                saved = {}
+                for x in ast.walk(gens[0].target):
+                    if isinstance(x, ast.Name) and x.id in s.env:
+                        saved[x.id] = s.env[x.id]
+                for item in its[0][1]:
+                    nx = []
+                    for s2, acc in live:
+                        for s3 in self.assign(gens[0].target, item, s2, fi,
+                                              e):
+                            for s4, v in self.ev(e.elt, s3, fi):
+                                nx.append((s4, acc + [v]))
+                    live = nx
+                for s2, acc in live:
+                    for x in ast.walk(gens[0].target):
+                        if isinstance(x, ast.Name):
+                            if x.id in saved:
+                                s2.env[x.id] = saved[x.id]
+                            else:
+                                s2.env.pop(x.id, None)
+                    kind = 'set' if isinstance(e, ast.SetComp) else 'list'
+                    out.append((s2, (kind, tuple(acc))))
                 continue
             body = s.fork()
             body.events = []
